@@ -97,3 +97,17 @@ func segSelfTest(r *core.Run, name, module, config string, segs []core.Segment, 
 	}
 	r.BindingSelfTest(name, module, config, segs[best].Lines, cs)
 }
+
+// segSelfTestLast uses the longest of the last segments (finite products enumerate the small cases first).
+func segSelfTestLast(r *core.Run, name, module, config string, segs []core.Segment, cs []core.Corruption) {
+	if len(segs) == 0 {
+		return
+	}
+	best := len(segs) - 1
+	for i := len(segs) - 1; i >= 0 && i >= len(segs)-40; i-- {
+		if len(segs[i].Lines) > len(segs[best].Lines) {
+			best = i
+		}
+	}
+	r.BindingSelfTest(name, module, config, segs[best].Lines, cs)
+}
